@@ -22,7 +22,7 @@ func init() {
 	register(&Check{
 		ID: "C09", Level: "exploration", Configs: []string{"lossy", "hostile", "hostile"},
 		Run: runC09, PrePass: prepassC09,
-		QuickRuns:   150_000,
+		QuickRuns:   450_000,
 		ThoroughSec: 720,
 		Rule: "one run = one codec (H264 Annex-B/AVC, H265 +-DONL, VP8, VP9 both modes, AV1Depacketizer, AV1Packet+frame.AV1, Opus): a real payloader streams 1-10 " +
 			"generated frames over a simulated wire (lossy: loss/dup/reorder; hostile: + bit flips, truncation, injected garbage incl. nil/empty/mutated genuine payloads) " +
